@@ -88,6 +88,13 @@ func cmdCheck(args []string) int {
 	}
 	start := time.Now()
 	checkProp = prop
+	diffSeed = seed
+	diffFrac = 0.05
+	if *tier == "thorough" {
+		diffFrac = 0.25
+	}
+	solverSetExtra := "cvc5"
+	_ = solverSetExtra
 	b, err := os.ReadFile(filepath.Join(verifDir, "checks", prop+".json"))
 	if err != nil {
 		fmt.Println("no check spec:", err)
@@ -108,6 +115,7 @@ func cmdCheck(args []string) int {
 			solverSet["cvc5"] = true
 		}
 	}
+	solverSet["cvc5"] = true
 	var sn []string
 	for s := range solverSet {
 		sn = append(sn, s)
@@ -422,6 +430,9 @@ func cmdCheck(args []string) int {
 			"instances":                      len(all),
 			"package_load_s":                 loadWall,
 			"replayed_natively":              replayed,
+			"solver_diff_queries":            diffRun,
+			"solver_diff_agreeing":           diffAgree,
+			"solver_diff_disagreeing":        diffBad,
 			"conformance_witnesses_replayed": conformRun,
 			"conformance_witnesses_agreeing": conformOK,
 			"inconclusive":                   problems,
